@@ -314,6 +314,71 @@ Proof.
   - reflexivity.
 Qed.
 
+(* ---------------- three-valued validation agrees with the validator inside the fragment ---------------- *)
+Lemma and3_some a b : and3 (Some a) (Some b) = Some (a && b).
+Proof. destruct a, b; reflexivity. Qed.
+
+Lemma forall3_some {A} (f : A -> option bool) (g : A -> bool) l :
+  (forall x, In x l -> f x = Some (g x)) -> forall3 f l = Some (forallb g l).
+Proof.
+  induction l as [|x r IH]; intro H; [reflexivity|]. cbn [forall3 forallb].
+  rewrite (H x (or_introl eq_refl)), IH, and3_some; [reflexivity|]. intros y Hy. apply H. right. exact Hy.
+Qed.
+
+Lemma in_fragment_node ty props req items pats addl mn mx :
+  in_fragment (SNode ty props req items pats addl mn mx) = true ->
+  Forall (fun ks => in_fragment (snd ks) = true) props /\ (forall si, items = Some si -> in_fragment si = true) /\
+  Forall (fun ps => in_fragment (snd ps) = true) pats /\ (forall sa, addl = Some sa -> in_fragment sa = true).
+Proof.
+  cbn [in_fragment]. rewrite !andb_true_iff. intros [[[Hp Hi] Hq] Ha]. repeat split.
+  - clear - Hp. induction props as [|[k s'] r IH]; [constructor|]. apply andb_true_iff in Hp as [H1 H2]. constructor; [exact H1|exact (IH H2)].
+  - intros si ->. exact Hi.
+  - clear - Hq. induction pats as [|[p s'] r IH]; [constructor|]. apply andb_true_iff in Hq as [H1 H2]. constructor; [exact H1|exact (IH H2)].
+  - intros sa ->. exact Ha.
+Qed.
+
+Theorem validate3_in_fragment : forall s d, in_fragment s = true -> validate3 s d = Some (validate s d).
+Proof.
+  induction s as [kw|b|ty props req items pats addl mn mx IHp IHi IHq IHa] using schema_ind'; intros d F.
+  - discriminate.
+  - reflexivity.
+  - apply in_fragment_node in F as (Fp & Fi & Fq & Fa). rewrite validate_node.
+    cbn [validate3]. destruct d; try (rewrite and3_some; reflexivity).
+    + (* arrays *)
+      destruct items as [si|]; [|rewrite and3_some; reflexivity]. cbn [items_ok].
+      rewrite (forall3_some (validate3 si) (validate si)); [rewrite and3_some; reflexivity|].
+      intros x _. apply (IHi si eq_refl). apply Fi. reflexivity.
+    + (* objects *)
+      assert (P : (fix vprops (ps : list (string * schema)) : option bool :=
+                     match ps with
+                     | [] => Some true
+                     | (k', s') :: rest =>
+                         and3 (forall3 (fun kv => if String.eqb (fst kv) k' then validate3 s' (snd kv) else Some true) l) (vprops rest)
+                     end) props = Some (props_ok l props)).
+      { clear - IHp Fp. induction props as [|[k s'] r IH]; [reflexivity|]. inversion IHp; subst. inversion Fp; subst.
+        rewrite IH by assumption. cbn [props_ok forallb fst snd].
+        rewrite (forall3_some _ (fun kv => if String.eqb (fst kv) k then validate s' (snd kv) else true)); [apply and3_some|].
+        intros kv _. destruct (String.eqb (fst kv) k); [|reflexivity]. cbn [snd] in *. auto. }
+      assert (Q : (fix vpats (ps : list (kpat * schema)) : option bool :=
+                     match ps with
+                     | [] => Some true
+                     | (p, s') :: rest =>
+                         and3 (forall3 (fun kv => if pat_matches p (fst kv) then validate3 s' (snd kv) else Some true) l) (vpats rest)
+                     end) pats = Some (pats_ok l pats)).
+      { clear - IHq Fq. induction pats as [|[p s'] r IH]; [reflexivity|]. inversion IHq; subst. inversion Fq; subst.
+        rewrite IH by assumption. cbn [pats_ok forallb fst snd].
+        rewrite (forall3_some _ (fun kv => if pat_matches p (fst kv) then validate s' (snd kv) else true)); [apply and3_some|].
+        intros kv _. destruct (pat_matches p (fst kv)); [|reflexivity]. cbn [snd] in *. auto. }
+      assert (A : match addl with
+                  | Some sa => forall3 (fun kv => if is_additional props pats (fst kv) then validate3 sa (snd kv) else Some true) l
+                  | None => Some true
+                  end = Some (addl_ok l props pats addl)).
+      { destruct addl as [sa|]; [|reflexivity]. cbn [addl_ok].
+        apply forall3_some. intros kv _. destruct (is_additional props pats (fst kv)); [|reflexivity].
+        apply (IHa sa eq_refl). apply Fa. reflexivity. }
+      rewrite P, Q, A, !and3_some, !andb_assoc. reflexivity.
+Qed.
+
 (* ---------------- the shipped schema ---------------- *)
 Lemma builtin_in_fragment : in_fragment builtin = true.
 Proof. vm_compute. reflexivity. Qed.
@@ -352,12 +417,13 @@ Qed.
 Theorem encoding_invariant c d : v_data_json c d = v_data_yaml c d /\ v_file_other_json c d = v_file_yaml c d.
 Proof. split; reflexivity. Qed.
 
-(* ... which failed before fix 6c1c860 *)
+(* ... which failed before fix 6c1c860 (shown for the no-op schema, so that the witness does not depend on the
+   shipped schema files) *)
 Definition odd_annotations_doc : doc :=
   DObj [("cdiVersion", DStr "1.0.0"); ("kind", DStr "vendor.com/class"); ("annotations", DObj [("a b", DStr "v")]);
         ("devices", DArr [DObj [("name", DStr "d"); ("containerEdits", DObj [("env", DArr [DStr "A=b"])])]])].
-Theorem encoding_invariant_pinned_refuted : exists d, v_data_json_pinned (CfgSchema builtin) d <> v_data_yaml (CfgSchema builtin) d.
-Proof. exists odd_annotations_doc. vm_compute. discriminate. Qed.
+Theorem encoding_invariant_pinned_refuted : exists c d, v_data_json_pinned c d <> v_data_yaml c d.
+Proof. exists CfgNop, odd_annotations_doc. vm_compute. discriminate. Qed.
 
 (* the no-op schema: the funnel accepts everything; ValidateData still runs the content check *)
 Theorem nop_accepts d :
@@ -381,22 +447,31 @@ Proof.
   repeat constructor; unfold run_data; rewrite ?T; reflexivity.
 Qed.
 
-(* hypotheses are satisfiable, the verdicts are not constant *)
+(* hypotheses are satisfiable, the verdicts are not constant.  The examples use a schema written here (not the shipped
+   one, so that they say nothing a maintainer of the schema files could invalidate): a DeviceNode-like object. *)
 Definition good_doc : doc :=
   DObj [("cdiVersion", DStr "1.0.0"); ("kind", DStr "vendor.com/class"); ("annotations", DObj [("a.b/c", DStr "v")]);
         ("devices", DArr [DObj [("name", DStr "d");
                                  ("containerEdits", DObj [("deviceNodes", DArr [DObj [("path", DStr "/dev/x"); ("major", DInt 9223372036854775807)]])])]])].
-Example good_doc_ok : annotations_wf good_doc /\ validate builtin good_doc = true.
+Example good_doc_wf : annotations_wf good_doc /\ top_decodable good_doc = true.
 Proof. split; vm_compute; reflexivity. Qed.
-Definition doc_with_node (node : doc) : doc :=
-  DObj [("cdiVersion", DStr "1.0.0"); ("kind", DStr "vendor.com/class");
-        ("devices", DArr [DObj [("name", DStr "d"); ("containerEdits", DObj [("deviceNodes", DArr [node])])]])].
-Example bad_docs_rejected :
-  validate builtin (DObj [("cdiVersion", DStr "1.0.0"); ("kind", DStr "v/c")]) = false /\
-  validate builtin (DObj [("cdiVersion", DInt 1); ("kind", DStr "v/c"); ("devices", DArr [])]) = false /\
-  validate builtin (doc_with_node (DObj [("path", DStr "/dev/x"); ("uid", DInt 4294967295)])) = true /\
-  validate builtin (doc_with_node (DObj [("path", DStr "/dev/x"); ("uid", DInt 4294967296)])) = false /\
-  validate builtin (doc_with_node (DObj [("path", DStr "/dev/x"); ("major", DFrac 3 2)])) = false /\
-  validate builtin (doc_with_node (DObj [("hostPath", DStr "/dev/x")])) = false /\
-  validate builtin (doc_with_node DNull) = false.
+
+Definition example_schema : schema :=
+  SNode (Some [TObject])
+    [("path", SNode (Some [TString]) [] [] None [] None None None);
+     ("uid", SNode (Some [TInteger]) [] [] None [] None (Some 0%Z) (Some 4294967295%Z));
+     ("ratio", SNode (Some [TNumber]) [] [] None [] None (Some 0%Z) (Some 1%Z));
+     ("opts", SNode (Some [TArray]) [] [] (Some (SNode (Some [TString; TNull]) [] [] None [] None None None)) [] None None None)]
+    ["path"] None [(PMin 2, SNode (Some [TString; TInteger; TNumber; TArray]) [] [] None [] None None None)] (Some (SBool false)) None None.
+Example example_verdicts :
+  validate example_schema (DObj [("path", DStr "/dev/x"); ("uid", DInt 4294967295); ("ratio", DFrac 1 2); ("opts", DArr [DStr "ro"; DNull])]) = true /\
+  validate example_schema (DObj [("uid", DInt 1)]) = false /\                                   (* required *)
+  validate example_schema (DObj [("path", DInt 1)]) = false /\                                  (* type *)
+  validate example_schema (DObj [("path", DStr "p"); ("uid", DInt 4294967296)]) = false /\      (* maximum *)
+  validate example_schema (DObj [("path", DStr "p"); ("uid", DFrac 3 2)]) = false /\            (* integer by value *)
+  validate example_schema (DObj [("path", DStr "p"); ("ratio", DFrac 3 2)]) = false /\          (* maximum on a fraction *)
+  validate example_schema (DObj [("path", DStr "p"); ("opts", DArr [DInt 1])]) = false /\       (* items *)
+  validate example_schema (DObj [("path", DStr "p"); ("xy", DBool true)]) = false /\            (* patternProperties *)
+  validate example_schema (DObj [("path", DStr "p"); ("x", DStr "s")]) = false /\               (* additionalProperties *)
+  validate example_schema (DArr []) = false.
 Proof. vm_compute. repeat split. Qed.
